@@ -368,7 +368,8 @@ func (s *Storage) LoadComponent(component interface{}) (bool, error) {
 // LoadStores loads all stores from storage to StoresInfo.
 func (s *Storage) LoadStores(f func(store *StoreInfo)) error {
 	nextID := uint64(0)
-	endKey := s.storePath(math.MaxUint64)
+	// the range end is exclusive: step just past the key of the largest id
+	endKey := s.storePath(math.MaxUint64) + "\x00"
 	for {
 		key := s.storePath(nextID)
 		_, res, err := s.LoadRange(key, endKey, minKVRangeLimit)
@@ -393,7 +394,8 @@ func (s *Storage) LoadStores(f func(store *StoreInfo)) error {
 			nextID = store.GetId() + 1
 			f(newStoreInfo)
 		}
-		if len(res) < minKVRangeLimit {
+		// nextID == 0: the id wrapped around, every store has been visited
+		if len(res) < minKVRangeLimit || nextID == 0 {
 			return nil
 		}
 	}
